@@ -2174,7 +2174,11 @@ func (cs Conditions) inlineTagFilter(tags map[string]TagDetails) ConditionsSet {
 		}
 		origLen := len(csNew)
 		for range tagConditionsSet {
-			csNew = append(csNew, csNew[:origLen]...)
+			for _, orig := range csNew[:origLen] {
+				// copy the conjunct, appending to a shared backing array would
+				// overwrite the conditions of its siblings
+				csNew = append(csNew, append(Conditions(nil), orig...))
+			}
 		}
 		a := c.Accept & certain
 		for i := range csNew {
